@@ -196,6 +196,9 @@ func obligationFor(ob *Obligation, fc *FuncContract, p string) bool {
 	if fc.AutoVolatile {
 		return ob.Kind == "volatile" || ob.Kind == "subset"
 	}
+	if fc.AutoCallerOf != "" {
+		return ob.Kind == "subset" || (ob.Kind == "pre" && strings.HasPrefix(ob.Clause, fc.AutoCallerOf+" requires "))
+	}
 	if len(ob.Props) > 0 {
 		return hasProp(ob.Props, p)
 	}
@@ -345,6 +348,34 @@ func RunCheck(opt Options) int {
 						have[fk] = true
 						tg = append(tg, target{fk, &FuncContract{Key: fk, AutoVolatile: true, Props: []string{opt.Prop}}, ""})
 					}
+				}
+			}
+		}
+		// `allcallers`: every module function that calls such a function is verified for the preconditions at its call
+		// sites (functions without a contract for this property are added; only those `pre` obligations count)
+		if opt.OnlyFunc == "" {
+			have := map[string]bool{}
+			for _, t := range tg {
+				have[t.key] = true
+			}
+			for _, t := range append([]target(nil), tg...) {
+				if !t.fc.AllCallers || ld.funcs[t.key] == nil {
+					continue
+				}
+				callee := ld.funcs[t.key]
+				for _, fk := range sortedKeys(ld.funcs) {
+					if have[fk] || !callsStatically(ld.funcs[fk], callee) {
+						continue
+					}
+					have[fk] = true
+					afc := &FuncContract{Key: fk, AutoCallerOf: t.key, Props: []string{opt.Prop}}
+					if ex := cs.byName[fk]; ex != nil {
+						// the caller has a contract for other properties: verify it under that contract
+						cp := *ex
+						cp.AutoCallerOf = t.key
+						afc = &cp
+					}
+					tg = append(tg, target{fk, afc, ""})
 				}
 			}
 		}
@@ -963,6 +994,9 @@ func (v *Verifier) VerifyFunction(fn *ssa.Function, fc *FuncContract) (err error
 			}
 		}
 		st.ghost[name] = gv
+		if g.Quiet && g.Scope == curScope {
+			v.assumptions["ghost "+g.Scope+"::"+name+" is `quiet`: calls whose target is unknown (func values, interface methods without contract) are assumed not to change it"] = true
+		}
 	}
 	for _, ax := range v.contracts.axioms {
 		if ax.Scope != "" && ax.Scope != curScope {
@@ -1007,6 +1041,12 @@ func (v *Verifier) VerifyFunction(fn *ssa.Function, fc *FuncContract) (err error
 					v.assumptions["precondition conjunct dropped (names unknown on this tree): "+conj.Text] = true
 				}
 			}
+		}
+	}
+	for _, c := range fc.Captures {
+		// proved where the closure is created (checkCaptures)
+		if clo != nil {
+			st.assume(pre.boolExpr(c.Expr))
 		}
 	}
 	v.entry = st.clone()
@@ -1143,6 +1183,20 @@ func storesToField(fn *ssa.Function, typeKey, field string) bool {
 			}
 			if typeName(pt.Elem()) == typeKey && u.Field(fa.Field).Name() == field {
 				return true
+			}
+		}
+	}
+	return false
+}
+
+// callsStatically: fn contains a call (also deferred or in a go statement) whose static callee is callee.
+func callsStatically(fn, callee *ssa.Function) bool {
+	for _, b := range fn.Blocks {
+		for _, ins := range b.Instrs {
+			if ci, ok := ins.(ssa.CallInstruction); ok {
+				if sc := ci.Common().StaticCallee(); sc != nil && (sc == callee || sc.Origin() == callee) {
+					return true
+				}
 			}
 		}
 	}
